@@ -204,8 +204,28 @@ class XExprEvaluator(ModelVisitor):
             self.is_x = True
             self.val = None
         else:
-            self.is_x = False
-            field.accept(self)
+            # The element selected by the (known) index
+            s.rhs.accept(self)
+            if not self.is_x:
+                idx = int(self.val)
+                if idx >= 0 and idx < len(field.field_l):
+                    field.field_l[idx].accept(self)
+                else:
+                    self.is_x = True
+                    self.val = None
+            
+    def visit_expr_partselect(self, e):
+        # Not evaluated here: leave it to the solver
+        self.is_x = True
+        self.val = None
+        
+    def visit_expr_unary(self, e):
+        self.is_x = True
+        self.val = None
+        
+    def visit_expr_cond(self, e):
+        self.is_x = True
+        self.val = None
             
     def visit_expr_in(self, e):
         e.lhs.accept(self)
